@@ -183,7 +183,7 @@ var copKinds = func() []string {
 
 func TestConcurrent(t *testing.T) {
 	name := t.Name()
-	hx.Check(t, 800, 30000, 0, func(rt *rapid.T) {
+	hx.Check(t, 4000, 300000, 0, func(rt *rapid.T) {
 		low := rapid.IntRange(1, 3).Draw(rt, "low")
 		cfg := config{low: low, high: low + rapid.IntRange(0, 3).Draw(rt, "highMinusLow"), grace: 2 * time.Minute,
 			silence: pick(rt, "silence", []time.Duration{5 * time.Second, 10 * time.Second}), decayRes: time.Minute}
